@@ -91,6 +91,8 @@ type k10Ver struct {
 	state kmspb.CryptoKeyVersion_CryptoKeyVersionState
 	pend  int // polls that will still see PENDING_GENERATION
 	key   int // index into the key pool
+	// pubWhenDisabled: GetPublicKey is served while DISABLED (created with key material, see k10Env.immediate)
+	pubWhenDisabled bool
 }
 
 type k10Key struct {
@@ -208,6 +210,11 @@ type k10Env struct {
 	final    kmspb.CryptoKeyVersion_CryptoKeyVersionState // state after generation (0 = ENABLED)
 	deadline bool                                         // cancel the operation's context at the first PENDING answer
 	corrupt  string                                       // "", "sigcrc", "vdata", "vdigest"
+	// immediate: the version is created already in its final state and CreateCryptoKeyVersion's response says
+	// so (no PENDING_GENERATION phase, as for software keys); a version created DISABLED has key material, so
+	// its public key is served.  The first poll then reports exactly what gen=0 reports, so the model line is
+	// the one of gen=0 with the same final state.
+	immediate bool
 }
 
 func (e k10Env) finalLetter() string {
@@ -343,12 +350,19 @@ func (c *k10Client) CreateCryptoKeyVersion(_ context.Context, in *kmspb.CreateCr
 	var v *k10Ver
 	if k != nil {
 		v = c.svc.newVersion(k, c.env.gen)
+		if c.env.immediate {
+			v.state, v.pend = ksEnabled, 0
+			if c.env.final != 0 {
+				v.state = c.env.final
+			}
+			v.pubWhenDisabled = true
+		}
 	}
 	c.leave(o)
 	if v == nil {
 		return nil, status.Error(codes.NotFound, "k10: no such cryptoKey")
 	}
-	return &kmspb.CryptoKeyVersion{Name: v.name, State: ksPending}, nil
+	return &kmspb.CryptoKeyVersion{Name: v.name, State: v.state}, nil
 }
 
 func (c *k10Client) GetCryptoKeyVersion(_ context.Context, in *kmspb.GetCryptoKeyVersionRequest, _ ...grpc.CallOption) (*kmspb.CryptoKeyVersion, error) {
@@ -398,7 +412,7 @@ func (c *k10Client) GetPublicKey(_ context.Context, in *kmspb.GetPublicKeyReques
 	if v == nil {
 		return nil, status.Error(codes.NotFound, "k10: no such cryptoKeyVersion")
 	}
-	if v.state != ksEnabled {
+	if v.state != ksEnabled && !(v.state == ksDisabled && v.pubWhenDisabled) {
 		return nil, status.Error(codes.FailedPrecondition, "k10: cryptoKeyVersion is not enabled")
 	}
 	der, err := x509.MarshalPKIXPublicKey(&k10PoolKey(v.key).PublicKey)
